@@ -304,6 +304,40 @@ func runC13(c *Ctx) {
 					c.Pred("lifecycle", "restart-after-failed-start", "tcp", false, "blocked", "starts", true)
 				}
 			}
+			// a UDP socket that is already closed: the start fails while preparing the socket
+			if dead, err := net.ListenPacket("udp", "127.0.0.1:0"); err == nil {
+				dead.Close()
+				srv := &dns.Server{PacketConn: dead, Handler: (&srvProbe{}).handler()}
+				ch := make(chan error, 1)
+				go func() { ch <- srv.ActivateAndServe() }()
+				var e1 error
+				select {
+				case e1 = <-ch:
+				case <-time.After(2 * time.Second):
+					e1 = nil
+				}
+				res, _ := shutdownWithin(srv, 0, 2*time.Second)
+				c.Pred("lifecycle", "failed-start-then-shutdown", "closed udp socket", e1 != nil && res != "nil" && res != "blocked", fmt.Sprint(e1, " / ", res), "start error, then 'not started' error", true)
+				// the same Server with a usable socket must start
+				if fresh, err := net.ListenPacket("udp", "127.0.0.1:0"); err == nil {
+					srv.PacketConn = fresh
+					st := make(chan struct{})
+					srv.NotifyStartedFunc = func() { close(st) }
+					ch2 := make(chan error, 1)
+					go func() { ch2 <- srv.ActivateAndServe() }()
+					select {
+					case <-st:
+						r2, _ := shutdownWithin(srv, 0, 3*time.Second)
+						c.Pred("lifecycle", "restart-after-failed-start", "udp", r2 == "nil", r2, "nil", true)
+					case e := <-ch2:
+						c.Pred("lifecycle", "restart-after-failed-start", "udp", false, fmt.Sprint(e), "starts", true)
+						fresh.Close()
+					case <-time.After(3 * time.Second):
+						c.Pred("lifecycle", "restart-after-failed-start", "udp", false, "blocked", "starts", true)
+						fresh.Close()
+					}
+				}
+			}
 			// bad network name
 			srv := &dns.Server{Addr: "127.0.0.1:0", Net: "bogus"}
 			e := srv.ListenAndServe()
